@@ -11,6 +11,7 @@ equivalent control-flow spellings (used by C20; nothing here knows a function or
                    enclosing frame passes for it
   result_checked   `?` == map_err(..)? == match r { Ok(v) => v, Err(e) => return Err(..) } == let-else
 """
+import re
 from lib.mirq import Slice, result_exits
 
 
@@ -298,4 +299,73 @@ def result_edges(body, term, hops=5):
         if not nxt:
             break
         cur = nxt
+    return out
+
+
+# ---------------------------------------------------------------- edge sets, emptiness tests
+
+def edges_dominate(body, edges, target):
+    """True iff every path entry -> target uses at least one of the CFG edges in `edges` ((src, dst) pairs)"""
+    edges = set(edges)
+    seen = set()
+    st = [0]
+    while st:
+        b = st.pop()
+        if b in seen:
+            continue
+        seen.add(b)
+        if b == target:
+            return False
+        for s in body.succ(b):
+            if (b, s) not in edges:
+                st.append(s)
+    return True
+
+
+def blocks_between(body, target, cut_edges=()):
+    """blocks on some path entry -> target that uses none of `cut_edges`"""
+    cut = set(cut_edges)
+    fwd, st = set(), [0]
+    while st:
+        b = st.pop()
+        if b in fwd:
+            continue
+        fwd.add(b)
+        st += [s for s in body.succ(b) if (b, s) not in cut]
+    bwd, st = set(), [target]
+    while st:
+        b = st.pop()
+        if b in bwd:
+            continue
+        bwd.add(b)
+        st += [p for p in body.pred(b) if (p, b) not in cut]
+    return fwd & bwd
+
+
+EMPTY_RX = re.compile(r"(::<impl str>|::String|::<impl \[T\]>|::Vec<T, A>|::Vec<T>)::is_empty$")
+LEN_RX = re.compile(r"(::<impl str>|::String|::<impl \[T\]>|::Vec<T, A>|::Vec<T>)::len$")
+
+
+def empty_edges(body, params):
+    """CFG edges (src, dst) taken exactly when the text/slice parameter (one of `params`) is empty:
+    the true edge of `p.is_empty()`, of `p.len() == 0`, the false edge of `p.len() != 0` (any polarity spelling)"""
+    sl = Slice(body)
+    out = []
+
+    def only_param(op):
+        rr = sl.roots(op)
+        return bool(rr) and all(r[0] == "arg" and r[1] in params for r in rr)
+    for b, t in body.calls():
+        cal = callee_of(t)
+        if EMPTY_RX.search(cal) and t["args"] and only_param(t["args"][0]):
+            out += [(swb, tt) for swb, tt, ft in bool_switches(body, t)]
+        elif LEN_RX.search(cal) and t["args"] and only_param(t["args"][0]):
+            d = t["d"][0]
+            for _, s in body.stmts():
+                if s.get("rk") == "bin" and s.get("op") in ("Eq", "Ne") and len(s["src"]) == 2:
+                    loc = [o for o in s["src"] if isinstance(o, list) and o[0] == d and o[1] == ""]
+                    cst = [o for o in s["src"] if isinstance(o, dict) and str(o.get("c")) == "0"]
+                    if loc and cst:
+                        for swb, tt, ft in bool_switches(body, {"d": s["d"]}):
+                            out.append((swb, tt) if s["op"] == "Eq" else (swb, ft))
     return out
